@@ -43,7 +43,7 @@ const == <<nm, dev, Frames, so, cuts>>
 ANY == {"any"}   \* some class; the statement does not say which
 
 \* ----------------------------------------------------------- honest stream
-NameLen(n) == IF n = "none" THEN 0 ELSE 4          \* "dev\0" / "oth\0"
+NameLen(n) == IF n = "none" THEN 0 ELSE IF n = "" THEN 1 ELSE 4     \* absent / "\0" / "dev\0", "oth\0"
 Hello(n)   == [k |-> "hello", blen |-> 1 + NameLen(n), claim |-> 1 + NameLen(n),
                proto |-> 1, name |-> n, marker |-> 1, key |-> "good", nonce |-> 0, idx |-> 0, integ |-> "ok"]
 Hs(kind)   == [k |-> "hs", blen |-> 49, claim |-> 49, proto |-> 0, name |-> kind, marker |-> 1,
